@@ -22,6 +22,7 @@ ES = "miasm/jitter/emulatedsymbexec.py"
 LEVEL_TEXT = ("Effect and ordering rules over SymbolicExecutionEngine: the evaluation closure is write-free and "
               "dominates all writes of an assignment block; per-block cache; dispatch and visitor completeness against the "
               "Expr classes' fields. Soundness w.r.t. concrete execution is not decided.")
+LEVEL_TEXT += " Also: the emulated engine's VM bridge lays values out big endian at the access width and reverses last, only for little-endian VMs."
 ASSUMPTIONS = ["CPython ast", "the symbolic state is self.symbols (SymbolMngr); state writes are symbols.write / item assignment / mem_write / apply_change"]
 CLS = "SymbolicExecutionEngine"
 
